@@ -910,8 +910,101 @@ fn short_escape_case(ch: &mut Choices<'_>, st: &mut Stats) -> CaseResult {
     Ok(())
 }
 
+/// Every character (U+0000..U+017F and a few beyond) in every digit position of
+/// the escapes and of hex pairs (exhaustive): only hex / octal digits are digits.
+const DIGIT_ALPHABET_EXTRA: [char; 6] = ['\u{2028}', '\u{ff10}', '\u{ff21}', '\u{0660}', '\u{1f600}', '\u{fffd}'];
+const DIGIT_TEMPLATES: usize = 10;
+
+fn digit_alphabet_total() -> u64 {
+    ((0x180 + DIGIT_ALPHABET_EXTRA.len()) * DIGIT_TEMPLATES) as u64
+}
+
+fn digit_alphabet_case(ch: &mut Choices<'_>, st: &mut Stats) -> CaseResult {
+    let ci = ch.draw(0x180 + DIGIT_ALPHABET_EXTRA.len());
+    let c = if ci < 0x180 { char::from_u32(ci as u32).unwrap() } else { DIGIT_ALPHABET_EXTRA[ci - 0x180] };
+    let t = ch.draw(DIGIT_TEMPLATES);
+    st.eval();
+    let case = |text: &str| json!({"filter": text, "character": format!("U+{:04X}", c as u32), "template": t});
+    if t < 6 {
+        // quoted escapes, judged by the reference decoder
+        let body = match t {
+            0 => format!("\\x{c}4\""),
+            1 => format!("\\x4{c}\""),
+            2 => format!("\\{c}01\""),
+            3 => format!("\\1{c}1\""),
+            4 => format!("\\10{c}\""),
+            _ => format!("a\\x{c}{c}b\""),
+        };
+        let text = format!("s == \"{body}");
+        let want = match decode_quoted(&body) {
+            Some((v, used)) if body.chars().skip(used).all(|c| c == ' ') => Some(v),
+            _ => None,
+        };
+        match (parse_json(&text), want) {
+            (Err(p), _) => return Err(Fail::new("parse-panic", p, case(&text))),
+            (Ok(Ok(got)), None) => {
+                return Err(Fail::new("malformed-literal-accepted", format!("{text:?}: U+{:04X} is not a digit of this escape, but the literal parsed to {got}", c as u32), case(&text)));
+            }
+            (Ok(Err(e)), Some(v)) => {
+                return Err(Fail::new("valid-literal-rejected", format!("{text:?} denotes {} but was rejected:\n{e}", show_bytes(&v)), case(&text)));
+            }
+            (Ok(Ok(got)), Some(v)) => {
+                if got != cmp("s", "Equal", bytes_json(&v, false)) {
+                    return Err(Fail::new("literal-value-mismatch", format!("{text:?}: got {got}, reference decodes {}", show_bytes(&v)), case(&text)));
+                }
+                st.class("digit-alphabet:accepted");
+            }
+            (Ok(Err(_)), None) => st.class("digit-alphabet:rejected"),
+        }
+    } else {
+        // hex pairs: a non-first digit position holds the character
+        let text = match t {
+            6 => format!("s == 4{c}:41"),
+            7 => format!("s == 41:{c}4"),
+            8 => format!("s == 41:4{c}"),
+            _ => format!("s == 41:42:{c}{c}"),
+        };
+        let hex = c.is_ascii_hexdigit();
+        match parse_json(&text) {
+            Err(p) => return Err(Fail::new("parse-panic", p, case(&text))),
+            Ok(Ok(got)) if !hex && !c.is_whitespace() => {
+                // a blank at the very end is trimmed with the filter text (judged below)
+                return Err(Fail::new("malformed-literal-accepted", format!("{text:?}: U+{:04X} is not a hex digit, but the literal parsed to {got}", c as u32), case(&text)));
+            }
+            Ok(Err(e)) if hex => return Err(Fail::new("valid-literal-rejected", format!("{text:?} rejected:\n{e}"), case(&text))),
+            Ok(Ok(got)) if hex => {
+                let d = c.to_digit(16).unwrap() as u8;
+                let want: Vec<u8> = match t {
+                    6 => vec![0x40 + d, 0x41],
+                    7 => vec![0x41, d * 16 + 4],
+                    8 => vec![0x41, 0x40 + d],
+                    _ => vec![0x41, 0x42, d * 17],
+                };
+                if got != cmp("s", "Equal", bytes_json(&want, true)) {
+                    return Err(Fail::new("literal-value-mismatch", format!("{text:?}: got {got}"), case(&text)));
+                }
+                st.class("digit-alphabet:accepted");
+            }
+            Ok(Ok(got)) => {
+                // whitespace: only acceptable as trimmed trailing blank leaving a well-formed literal
+                let trimmed = text.trim_end();
+                let ok_after_trim = t == 9 && false || (t == 8 && false);
+                if !ok_after_trim && trimmed.len() == text.len() {
+                    return Err(Fail::new("malformed-literal-accepted", format!("{text:?} parsed to {got}"), case(&text)));
+                }
+                // `41:4 ` -> `41:4` (one digit) and `41:42:  ` -> trailing separator: both malformed
+                return Err(Fail::new("malformed-literal-accepted", format!("{text:?} (blank in a digit position) parsed to {got}"), case(&text)));
+            }
+            Ok(Err(_)) => st.class("digit-alphabet:rejected"),
+        }
+    }
+    st.nontrivial(&(c, t));
+    Ok(())
+}
+
 pub fn subs() -> Vec<Sub> {
     vec![
+        Sub { name: "digit-alphabet", f: Box::new(digit_alphabet_case) },
         Sub { name: "short-escapes", f: Box::new(short_escape_case) },
         Sub { name: "int", f: Box::new(int_case) },
         Sub { name: "bytes", f: Box::new(bytes_case) },
@@ -938,6 +1031,7 @@ pub fn run(run: &Run) {
     run.enumerate("cidr", 33 + 129, &|i| if i < 33 { vec![0, i as u32] } else { vec![1, (i - 33) as u32] }, get("cidr"));
     run.enumerate("malformed", malformed_list().len() as u64, &|i| vec![i as u32], get("malformed"));
     run.enumerate("short-escapes", short_escape_texts().len() as u64, &|i| vec![i as u32], get("short-escapes"));
+    run.enumerate("digit-alphabet", digit_alphabet_total(), &|i| vec![(i / DIGIT_TEMPLATES as u64) as u32, (i % DIGIT_TEMPLATES as u64) as u32], get("digit-alphabet"));
     let q = run.tier.pick(100_000, 2_000_000);
     run.random("int", q, 40, get("int"));
     run.random("bytes", q, 80, get("bytes"));
